@@ -1,2 +1,223 @@
-import AlgoVerif.Common
-/-! # C19 — property theorems (none yet) -/
+import AlgoVerif.Proofs.C19Top
+/-!
+# C19 — property theorems (statements only live here; helper lemmas in `Proofs/C19*.lean`)
+
+Reading of the property.  `runNew ⟨bytes, script, tailEof⟩ n ops` (`Model/C19Run.lean`) is `New(_, src, n)` followed
+by the calls `ops` on the Model of `/repo/lexer/input/{input,utf8}.go`; `src` is the reader that delivers `bytes`
+according to `script` (any finite list of answers: at most `cap` bytes / half of the request / a zero-length
+read, `io.EOF` together with the last bytes or on the call after, an I/O error) and then fills every request.
+"Every io.Reader that eventually delivers the source" is every `script` without I/O-error answers, every
+`tailEof`.  The decoded source is a `List Char`; its bytes are `Spec.encode` = `String.utf8EncodeChar` of each
+rune (Lean core's UTF-8 encoder).  `Spec.run (Spec.init cs) ops` is the abstract reader of `Spec/C19.lean`
+(three cursors `flushed ++ pending ++ rest = cs`); `Spec.Keeps n … ops` says that after every call the pending
+lexeme has at most `n` bytes — the property's precondition.
+
+What is proved for ALL sources without U+0000, ALL buffer sizes `n ≥ 1`, ALL such readers, ALL call sequences:
+the UTF-8 decoder is exact (`C19_utf8_decode_correct`), `Next` until end of input delivers the decoded source
+(`C19_next_delivers_source_partial`), any interleaving of Next/Retract/Lexeme/Skip within the precondition returns
+exactly what the Spec returns, nothing panics or hangs (`C19_lexemes_concat_partial`), positions are offset/line/
+column of the first rune of each lexeme (`C19_positions_correct_partial`), ill-formed UTF-8 is reported
+(`C19_invalid_utf8_reported_partial`).  The two gaps are the known findings C19-NUL and C19-TRUNC; for each a
+kernel-checked counterexample on the Model stands next to the `_partial` theorem.
+
+Proof: buffer invariant `Inv` (which bytes the two halves hold, what `forward`, `err`, `ahead` mean), preserved
+by `next()` for every reader behaviour (`Proofs/C19Reader`, `C19Buf`); `Next` = the table-driven decoder on the
+bytes at `forward` (`C19Next`), the decoder = UTF-8 by cases on the lead-byte class read off the regenerated
+tables (`C19Utf8`); `Retract`, the copy loop of `Lexeme`, `Skip` (`C19Retract`, `C19Lexeme`); forward simulation
+`Rel` by induction over the call sequence (`C19Refine`, `C19Top`).  No bound on anything.
+-/
+open AlgoVerif AlgoVerif.C19
+
+/-! ## 1. the decoder -/
+
+/-- The table-driven decoder of `Next` (`decodeRune`: tables `first`, `acceptRanges` regenerated from
+utf8.go, masks and shifts as in the code) returns rune `r` of length `k` for a byte sequence **iff** the
+sequence starts with the UTF-8 encoding of the scalar value `r`, whose length is `k`: it decodes every scalar
+value correctly whatever follows it, and accepts nothing else (overlong forms, surrogates, values above U+10FFFF,
+stray continuation bytes, bad continuation bytes all fail).  `Input.Next` runs exactly this function on the bytes
+at `forward` (`Next_spec`, used by every theorem below). -/
+theorem C19_utf8_decode_correct (bs : List UInt8) (r k : Nat) :
+    decodeRune bs = .rune r k ↔
+      ∃ (c : Char) (rest : List UInt8), bs = String.utf8EncodeChar c ++ rest ∧ r = c.toNat ∧ k = c.utf8Size :=
+  decodeRune_eq_rune_iff bs r k
+
+set_option maxRecDepth 100000 in
+/-- non-vacuity: the first and the last scalar value of every length, followed by arbitrary bytes; and
+ill-formed sequences of every class (lone continuation byte, C0/C1, overlong E0/F0, surrogate, above U+10FFFF,
+bad second / third / fourth byte) are rejected after the byte that makes them ill-formed. -/
+example :
+    [[0x00, 0xff], [0x7f], [0xc2, 0x80, 0x80], [0xdf, 0xbf], [0xe0, 0xa0, 0x80], [0xed, 0x9f, 0xbf], [0xee, 0x80, 0x80],
+     [0xef, 0xbf, 0xbf, 0x41], [0xf0, 0x90, 0x80, 0x80], [0xf4, 0x8f, 0xbf, 0xbf]].map decodeRune
+      = [.rune 0 1, .rune 0x7f 1, .rune 0x80 2, .rune 0x7ff 2, .rune 0x800 3, .rune 0xd7ff 3, .rune 0xe000 3,
+         .rune 0xffff 3, .rune 0x10000 4, .rune 0x10ffff 4] ∧
+    [[0x80], [0xc0, 0x80], [0xc1, 0xbf], [0xe0, 0x9f, 0xbf], [0xed, 0xa0, 0x80], [0xf0, 0x8f, 0xbf, 0xbf],
+     [0xf4, 0x90, 0x80, 0x80], [0xf5, 0x80, 0x80, 0x80], [0xc3, 0x41], [0xe2, 0x82, 0x41], [0xf0, 0x90, 0x80, 0x41],
+     [0xc3], [0xe2, 0x82], [0xf0, 0x90, 0x80]].map decodeRune
+      = [.invalid 1, .invalid 1, .invalid 1, .invalid 2, .invalid 2, .invalid 2, .invalid 2, .invalid 1, .invalid 2,
+         .invalid 3, .invalid 4, .short, .short, .short] := by
+  decide
+
+/-! ## 2. `Next` until end of input -/
+
+/-
+Full statement (false of the code, known finding C19-NUL): the theorem below without the hypothesis `hnul`.
+Missing: sources that contain U+0000.  The code uses the byte 0x00 as end-of-input sentinel
+(`const eof byte = 0x00`, tested after every byte except the first of a half), and the repository's unit tests
+build `Input` values whose buffers end in NUL and expect `io.EOF`, so the sentinel cannot go without editing them.
+-/
+/-- For every list of runes without U+0000, every buffer size `n ≥ 1`, every reader without I/O errors (however
+it chunks its reads, however often it returns `(0, nil)`, whether it reports `io.EOF` with the last bytes or
+afterwards): `New`, then `Next` called (number of runes + `k`) times, returns exactly the runes in order and then
+`io.EOF` `k` times; nothing panics, nothing hangs.  For the empty source `New` itself returns `io.EOF`.
+(`n` may be smaller than a rune: `Next` alone never needs more than one byte of look-back.) -/
+theorem C19_next_delivers_source_partial (cs : List Char) (hnul : ∀ c ∈ cs, c.toNat ≠ 0) (n : Nat) (hn : 0 < n)
+    (script : List Answer) (tailEof : Bool) (hio : ∀ a ∈ script, a.flag ≠ .ioerr) (k : Nat) :
+    runNew ⟨Spec.encode cs, script, tailEof⟩ n (List.replicate (cs.length + k) .next) =
+      if cs = [] then .failed .eof
+      else .ran (cs.map (fun c => .ok (.rune c.toNat)) ++ List.replicate k (.ok (.err .eof))) :=
+  next_delivers_source cs hnul n hn script tailEof hio k
+
+set_option maxRecDepth 100000 in
+/-- non-vacuity, and the historic defect D23 on the Model: `"hé€𐀀\n"` through a reader that answers with one
+byte, nothing, half of the request, then `io.EOF` together with the last bytes, buffer size 2 (every multi-byte
+rune straddles a half boundary). -/
+example :
+    runNew ⟨Spec.encode "hé€𐀀\n".toList, [{ cap := 1 }, { cap := 0 }, { half := true, cap := 0 }, { cap := 1 }], true⟩ 2
+        (List.replicate 7 .next)
+      = .ran [.ok (.rune 104), .ok (.rune 233), .ok (.rune 8364), .ok (.rune 65536), .ok (.rune 10),
+              .ok (.err .eof), .ok (.err .eof)] := by
+  decide
+
+set_option maxRecDepth 100000 in
+/-- Known finding C19-NUL, kernel-checked on the Model: source `a b NUL c d`, buffer size 8, a reader that fills
+every request: the third `Next` returns `io.EOF` although three more runes follow. -/
+theorem C19_counterexample_nul_ends_input :
+    runNew { rest := [0x61, 0x62, 0x00, 0x63, 0x64] } 8 [.next, .next, .next]
+      = .ran [.ok (.rune 97), .ok (.rune 98), .ok (.err .eof)] := by decide
+
+set_option maxRecDepth 100000 in
+/-- …but a NUL that is the first byte of a buffer half is an ordinary rune (same source, buffer size 2). -/
+example :
+    runNew { rest := [0x61, 0x62, 0x00, 0x63, 0x64] } 2 [.next, .next, .skip, .next, .next, .lexeme, .next, .next]
+      = .ran [.ok (.rune 97), .ok (.rune 98), .ok (.skipped ⟨0, 1, 1⟩), .ok (.rune 0), .ok (.rune 99),
+              .ok (.lexeme [0, 0x63] ⟨2, 1, 3⟩), .ok (.rune 100), .ok (.err .eof)] := by decide
+
+/-! ## 3. any interleaving of Next / Retract / Lexeme / Skip -/
+
+/-
+Full statement (false of the code, known finding C19-NUL): as below without `hnul`.
+Missing: sources that contain U+0000 (see section 2).
+-/
+/-- For every list of runes `cs` without U+0000, every `n ≥ 1`, every reader without I/O errors and EVERY call
+sequence `ops` that keeps the pending lexeme within `n` bytes:
+1. the Model's trace is exactly the Spec's outputs, each wrapped in `ok` — every `Next` returns the next rune of
+   the source (or `io.EOF` at its end), every `Retract` gives back exactly the last rune, every `Lexeme` returns
+   the bytes of the pending runes, nothing panics or hangs (this includes the historic defects D24: `Retract`
+   after the last rune, `Retract` across a half boundary, and D27: `Lexeme` when the source ends with the buffer);
+2. the spans handed out by `Lexeme` and passed over by `Skip`, in order, concatenate to the bytes of the runes
+   consumed and flushed so far;
+3. flushed, pending and unread runes always partition the source. -/
+theorem C19_lexemes_concat_partial (cs : List Char) (hnul : ∀ c ∈ cs, c.toNat ≠ 0) (n : Nat) (hn : 0 < n)
+    (script : List Answer) (tailEof : Bool) (hio : ∀ a ∈ script, a.flag ≠ .ioerr)
+    (ops : List Op) (hkeep : Spec.Keeps n (Spec.init cs) ops) :
+    runNew ⟨Spec.encode cs, script, tailEof⟩ n ops =
+        (if cs = [] then .failed .eof else .ran ((Spec.run (Spec.init cs) ops).map .ok)) ∧
+    (Spec.spans (Spec.init cs) ops).flatten = Spec.encode (Spec.final (Spec.init cs) ops).flushed ∧
+    (Spec.final (Spec.init cs) ops).flushed ++ (Spec.final (Spec.init cs) ops).pending
+        ++ (Spec.final (Spec.init cs) ops).rest = cs :=
+  ⟨runNew_refines cs hnul n hn script tailEof hio ops hkeep,
+   by simpa [Spec.init, Spec.encode] using Spec.spans_flatten (Spec.init cs) ops,
+   Spec.final_partition (Spec.init cs) ops⟩
+
+/-- the call sequence of the example below: scanner style (read past the delimiter, retract it, take the lexeme),
+retraction of several runes, a skip, retraction across half boundaries and at end of input -/
+def C19_exampleOps : List Op :=
+  [.next, .next, .next, .retract, .lexeme, .next, .next, .retract, .retract, .next, .skip, .next, .lexeme, .next,
+   .lexeme, .next, .lexeme, .next, .next, .retract, .lexeme, .next, .next, .retract, .next, .lexeme]
+
+/-- non-vacuity: the hypothesis `Keeps` holds for that call sequence on `"ab\nc€é𐀀d"` with buffer size 5 … -/
+example : Spec.Keeps 5 (Spec.init "ab\nc€é𐀀d".toList) C19_exampleOps := by decide
+
+set_option maxRecDepth 100000 in
+/-- … and the Model (one-byte / zero-length / half / EOF-with-data reader) returns: lexemes `ab`, `c`, `€`, `é`,
+`𐀀`, `d`, one skipped newline, positions 1:1, 1:3, 2:1, 2:2, 2:3, 2:4, 2:5. -/
+example :
+    runNew ⟨Spec.encode "ab\nc€é𐀀d".toList,
+        [{ cap := 1 }, { cap := 0 }, { half := true, cap := 0 }, { cap := 3, flag := .eofWithData }], true⟩ 5 C19_exampleOps
+      = .ran [.ok (.rune 97), .ok (.rune 98), .ok (.rune 10), .ok .unit, .ok (.lexeme [97, 98] ⟨0, 1, 1⟩),
+          .ok (.rune 10), .ok (.rune 99), .ok .unit, .ok .unit, .ok (.rune 10), .ok (.skipped ⟨2, 1, 3⟩),
+          .ok (.rune 99), .ok (.lexeme [99] ⟨3, 2, 1⟩), .ok (.rune 8364), .ok (.lexeme [226, 130, 172] ⟨4, 2, 2⟩),
+          .ok (.rune 233), .ok (.lexeme [195, 169] ⟨5, 2, 3⟩), .ok (.rune 65536), .ok (.rune 100), .ok .unit,
+          .ok (.lexeme [240, 144, 128, 128] ⟨6, 2, 4⟩), .ok (.rune 100), .ok (.err .eof), .ok .unit,
+          .ok (.rune 100), .ok (.lexeme [100] ⟨7, 2, 5⟩)] := by
+  decide
+
+/-! ## 4. positions -/
+
+/-
+Full statement (false of the code, known finding C19-NUL): as below without `hnul`.
+Missing: sources that contain U+0000 (see section 2).
+-/
+/-- Under the hypotheses of section 3: when a call sequence `ops` is followed by `Lexeme` (or `Skip`), that call
+returns the position `Spec.posAfter flushed` — the number of runes before, the 1-based line (1 + newlines before)
+and the 1-based column (1 + runes since the last newline) — computed from exactly the runes `flushed` that
+precede the lexeme in the source: `flushed ++ pending ++ rest = cs`, `pending` being the lexeme returned.
+(`Position.Offset` counts runes, as the comment on `Input.offset` says; `lexer.Position` documents it as a byte
+offset — the property asks for line and column only.) -/
+theorem C19_positions_correct_partial (cs : List Char) (hnul : ∀ c ∈ cs, c.toNat ≠ 0) (hne : cs ≠ [])
+    (n : Nat) (hn : 0 < n) (script : List Answer) (tailEof : Bool) (hio : ∀ a ∈ script, a.flag ≠ .ioerr)
+    (ops : List Op) (last : Op) (hlast : last = .lexeme ∨ last = .skip)
+    (hkeep : Spec.Keeps n (Spec.init cs) (ops ++ [last])) :
+    let st := Spec.final (Spec.init cs) ops
+    st.flushed ++ st.pending ++ st.rest = cs ∧
+    runNew ⟨Spec.encode cs, script, tailEof⟩ n (ops ++ [last]) =
+      .ran ((Spec.run (Spec.init cs) ops).map .ok ++
+        [.ok (if last = .lexeme then .lexeme (Spec.encode st.pending) (Spec.posAfter st.flushed)
+              else .skipped (Spec.posAfter st.flushed))]) := by
+  intro st
+  refine ⟨Spec.final_partition (Spec.init cs) ops, ?_⟩
+  rw [runNew_refines cs hnul n hn script tailEof hio _ hkeep, if_neg hne, Spec.run_append]
+  rcases hlast with h | h <;> subst h <;> simp [Spec.run, Spec.step, st]
+
+/-- non-vacuity of the position function: line and column of the rune after `"ab\ncd\n\né"` (8 runes). -/
+example : Spec.posAfter "ab\ncd\n\né".toList = ⟨8, 4, 2⟩ := by decide
+
+/-! ## 5. invalid UTF-8 -/
+
+/-
+Full statement (false of the code, known finding C19-TRUNC): as below with the weaker hypothesis "`tail` does not
+start with the encoding of a scalar value" (i.e. `∀ r k, decodeRune tail ≠ .rune r k`, by
+`C19_utf8_decode_correct`).  Missing: `decodeRune tail = .short` — the source ends inside a multi-byte sequence
+whose bytes so far are admissible; `next()` then returns the sticky `io.EOF` and `Next` passes it on, and the
+repository's tests (`SecondByte_EOF`, `ThirdByte_EOF`, `FourthByte_EOF`) expect exactly that.
+-/
+/-- A source made of well-formed runes `cs` followed by bytes `tail` on which the decoder fails after `k` bytes
+(`.invalid k`: a byte that cannot start a sequence, or a second/third/fourth byte outside its range — by
+`C19_utf8_decode_correct` nothing well-formed is ever classified so), without NUL bytes: the `Next` that reaches
+`tail` returns the error "invalid utf-8 character" after all runes of `cs` were delivered unaltered — for every
+buffer size and every reader without I/O errors. -/
+theorem C19_invalid_utf8_reported_partial (cs : List Char) (tail : List UInt8) (k : Nat)
+    (hbad : decodeRune tail = .invalid k) (hnul : ∀ b ∈ Spec.encode cs ++ tail, b ≠ 0)
+    (n : Nat) (hn : 0 < n) (script : List Answer) (tailEof : Bool) (hio : ∀ a ∈ script, a.flag ≠ .ioerr) :
+    ∃ pos, runNew ⟨Spec.encode cs ++ tail, script, tailEof⟩ n (List.replicate cs.length .next ++ [.next])
+      = .ran (cs.map (fun c => .ok (.rune c.toNat)) ++ [.ok (.invalid pos)]) :=
+  invalid_reported cs tail k hbad hnul n hn script tailEof hio
+
+set_option maxRecDepth 100000 in
+/-- non-vacuity: `"a\n"` followed by an overlong `E0 9F BF`, one-byte reader, buffer size 2: the error carries the
+position 2:1 (rune offset 2). -/
+example :
+    runNew ⟨[0x61, 0x0a, 0xe0, 0x9f, 0xbf], List.replicate 7 { cap := 1 }, false⟩ 2 [.next, .next, .next]
+      = .ran [.ok (.rune 97), .ok (.rune 10), .ok (.invalid ⟨2, 2, 1⟩)] := by decide
+
+set_option maxRecDepth 100000 in
+/-- Known finding C19-TRUNC, kernel-checked on the Model: `a` followed by the lone lead byte `0xC3` at the very end
+of the source is reported as `io.EOF`, the ordinary end of input, not as invalid UTF-8. -/
+theorem C19_counterexample_truncated_rune_is_eof :
+    runNew { rest := [0x61, 0xc3] } 8 [.next, .next] = .ran [.ok (.rune 97), .ok (.err .eof)] := by decide
+
+set_option maxRecDepth 100000 in
+/-- …followed by any other byte the same lead byte is reported as invalid UTF-8. -/
+example :
+    runNew { rest := [0x61, 0xc3, 0x62] } 8 [.next, .next]
+      = .ran [.ok (.rune 97), .ok (.invalid ⟨1, 1, 2⟩)] := by decide
